@@ -2,6 +2,9 @@ module github.com/samsarahq/thunder/verifharness
 
 go 1.15
 
-require github.com/samsarahq/thunder v0.0.0
+require (
+	github.com/gorilla/websocket v1.0.1-0.20161018003955-8003df83eef3
+	github.com/samsarahq/thunder v0.0.0
+)
 
 replace github.com/samsarahq/thunder => /repo
